@@ -47,6 +47,48 @@ Proof.
   - rewrite app_nth1 by lia. apply nth_firstn_lt. lia.
 Qed.
 
+(* ------------------------------------------------------------------ sparse file images *)
+
+Lemma lookup_app : forall x a b,
+  lookup x (a ++ b) = match lookup x a with Some v => Some v | None => lookup x b end.
+Proof.
+  induction a as [|[k v] a IH]; intros b; simpl; auto. destruct (k =? x); auto.
+Qed.
+
+Lemma lookup_zip : forall d o x,
+  lookup x (zipcells o d) =
+  if (o <=? x) && (x <? o + N.of_nat (length d)) then Some (nth (N.to_nat (x - o)) d 0) else None.
+Proof.
+  induction d as [|b d IH]; intros o x; simpl.
+  - destruct (N.leb_spec o x); destruct (N.ltb_spec x (o + N.of_nat 0)); simpl; auto; lia.
+  - destruct (N.eqb_spec o x) as [->|Hne].
+    + replace (N.to_nat (x - x)) with O by lia.
+      destruct (N.leb_spec x x); destruct (N.ltb_spec x (x + N.of_nat (S (length d)))); simpl; auto; lia.
+    + rewrite IH.
+      destruct (N.leb_spec (o + 1) x); destruct (N.leb_spec o x);
+        destruct (N.ltb_spec x (o + 1 + N.of_nat (length d)));
+        destruct (N.ltb_spec x (o + N.of_nat (S (length d)))); simpl; auto; try lia.
+      replace (N.to_nat (x - o)) with (S (N.to_nat (x - (o + 1)))) by lia. reflexivity.
+Qed.
+
+Lemma raw_splice : forall l o d x, o + N.of_nat (length d) <= fi_len l ->
+  f_raw (f_splice l o d) x =
+  if (o <=? x) && (x <? o + N.of_nat (length d)) then nth (N.to_nat (x - o)) d 0 else f_raw l x.
+Proof.
+  intros l o d x H. unfold f_raw, f_splice. simpl. rewrite lookup_app, lookup_zip.
+  destruct (N.leb_spec o x); destruct (N.ltb_spec x (o + N.of_nat (length d))); simpl; auto.
+  destruct (N.ltb_spec x (fi_len l)); [reflexivity|lia].
+Qed.
+
+Lemma map_nseq_ext : forall (g1 g2 : N -> N) n a b,
+  (forall x, x < N.of_nat n -> g1 (a + x) = g2 (b + x)) -> map g1 (nseq a n) = map g2 (nseq b n).
+Proof.
+  induction n; intros a b H; simpl; auto. f_equal.
+  - specialize (H 0 ltac:(lia)). rewrite !N.add_0_r in H. exact H.
+  - apply IHn. intros x Hx. specialize (H (1 + x) ltac:(lia)).
+    replace (a + 1 + x) with (a + (1 + x)) by lia. replace (b + 1 + x) with (b + (1 + x)) by lia. exact H.
+Qed.
+
 (* ------------------------------------------------------------------ frame *)
 
 Section Frame.
@@ -68,15 +110,14 @@ Section Frame.
   Lemma segs_from_le : forall first sg last, segs_from first sg last -> first <= last.
   Proof. induction 1; lia. Qed.
 
-  Definition raw (store : list bytes) (i : nat) (o : N) : N :=
-    nth (N.to_nat o) (nth i store []) 0.
+  Definition raw (store : list fimg) (i : nat) (o : N) : N := f_raw (nth i store fempty) o.
 
   (* every non-padding file the chunk maps has its full size on disk (what create_chunk with
      write permission establishes: ProofsB.mapped) *)
-  Definition sized (store : list bytes) : Prop :=
+  Definition sized (store : list fimg) : Prop :=
     forall p, In p ps -> p_pad p = false ->
       exists f, nth_error files (p_file p) = Some f /\
-                N.of_nat (length (nth (p_file p) store [])) = f_size f.
+                fi_len (nth (p_file p) store fempty) = f_size f.
 
   Lemma file_inj : forall i f o i' f' o',
     nth_error files i = Some f -> nth_error files i' = Some f' ->
@@ -95,7 +136,7 @@ Section Frame.
     N.of_nat (length data) = last - first -> sized store -> length store = length files ->
     let st' := fst (write_segs sg data store cm) in
     length st' = length store /\
-    (forall j, length (nth j st' []) = length (nth j store [])) /\
+    (forall j, fi_len (nth j st' fempty) = fi_len (nth j store fempty)) /\
     forall i f o, nth_error files i = Some f -> o < f_size f ->
       raw st' i o =
       if negb (f_pad f) && (B + first <=? f_off f + o) && (f_off f + o <? B + last)
@@ -132,14 +173,14 @@ Section Frame.
         rewrite Hnth by lia. f_equal. lia.
       + (* file part *)
         destruct (Hsz p Hin Epad) as (fp' & Fq1 & Fq2). rewrite Fp1 in Fq1. inversion Fq1; subst fp'.
-        set (pf := p_file p) in *. set (L := nth pf store []) in *.
+        set (pf := p_file p) in *. set (L := nth pf store fempty) in *.
         assert (Hpf : (pf < length store)%nat) by (rewrite Hlen; eapply nth_error_length; eauto).
-        assert (Hfit : (N.to_nat (p_foff p + o) + length d <= length L)%nat) by lia.
-        set (store1 := upd store pf (splice L (p_foff p + o) d)).
+        assert (Hfit : p_foff p + o + N.of_nat (length d) <= fi_len L) by lia.
+        set (store1 := upd store pf (f_splice L (p_foff p + o) d)).
         assert (Hlen1 : length store1 = length files) by (unfold store1; rewrite upd_length; auto).
-        assert (Hlens : forall j, length (nth j store1 []) = length (nth j store [])).
+        assert (Hlens : forall j, fi_len (nth j store1 fempty) = fi_len (nth j store fempty)).
         { intros j. unfold store1. destruct (Nat.eq_dec pf j) as [<-|Hne].
-          - rewrite nth_upd_same by auto. apply splice_length. auto.
+          - rewrite nth_upd_same by auto. reflexivity.
           - rewrite nth_upd_other by auto. reflexivity. }
         assert (Hsz1 : sized store1).
         { intros q Hq Hqp. destruct (Hsz q Hq Hqp) as (fq & Q1 & Q2). exists fq. rewrite Hlens. auto. }
@@ -153,11 +194,8 @@ Section Frame.
                         if (Nat.eqb i pf && (p_foff p + o <=? oo) && (oo <? p_foff p + o + k))%bool
                         then nth (N.to_nat (oo - (p_foff p + o))) d 0 else raw store i oo).
         { unfold raw, store1. destruct (Nat.eqb_spec i pf) as [->|Hne]; simpl.
-          - rewrite nth_upd_same by auto. rewrite nth_splice by auto. fold L.
-            destruct (N.leb_spec (p_foff p + o) oo); destruct (N.ltb_spec oo (p_foff p + o + k)); simpl;
-              destruct (Nat.leb_spec (N.to_nat (p_foff p + o)) (N.to_nat oo));
-              destruct (Nat.ltb_spec (N.to_nat oo) (N.to_nat (p_foff p + o) + length d)); simpl; try lia; auto.
-            f_equal. lia.
+          - rewrite nth_upd_same by auto. rewrite raw_splice by auto. fold L.
+            replace (p_foff p + o + N.of_nat (length d)) with (p_foff p + o + k) by lia. reflexivity.
           - rewrite nth_upd_other by auto. reflexivity. }
         rewrite Hraw1. clear Hraw1.
         destruct (Nat.eqb_spec i pf) as [->|Hne]; simpl.
@@ -294,7 +332,7 @@ Section Frame.
   Qed.
 
   (* byte x of the chunk's memory: padding parts live in cm, file parts alias the store *)
-  Definition cbyte (store : list bytes) (cm : bytes) (x : N) : N :=
+  Definition cbyte (store : list fimg) (cm : bytes) (x : N) : N :=
     match find_part x with
     | Some p => if p_pad p then nth (N.to_nat x) cm 0
                 else raw store (p_file p) (p_foff p + (x - p_pos p))
@@ -341,7 +379,7 @@ Section Frame.
         * destruct (pad_at x); simpl; auto. rewrite Hnth by lia. f_equal. lia.
         * unfold pad_at. rewrite Hfind by lia. rewrite Epad. simpl.
           unfold d. rewrite nth_firstn_lt by lia. f_equal. lia.
-      + specialize (IH rest (upd store (p_file p) (splice (nth (p_file p) store []) (p_foff p + o) d)) cm Hrl Hcm).
+      + specialize (IH rest (upd store (p_file p) (f_splice (nth (p_file p) store fempty) (p_foff p + o) d)) cm Hrl Hcm).
         destruct IH as [I1 I2]. split; auto.
         intros x. rewrite I2.
         destruct (N.leb_spec (first + k) x) as [L1|L1]; destruct (N.leb_spec first x) as [L2|L2];
@@ -352,9 +390,9 @@ Section Frame.
   Qed.
 
   (* lengths needed for reading: every mapped window lies inside its file *)
-  Definition windows_ok (store : list bytes) : Prop :=
+  Definition windows_ok (store : list fimg) : Prop :=
     forall p, In p ps -> p_pad p = false ->
-      p_foff p + p_size p <= N.of_nat (length (nth (p_file p) store [])).
+      p_foff p + p_size p <= fi_len (nth (p_file p) store fempty).
 
   Lemma nseq_length : forall n s, length (nseq s n) = n.
   Proof. induction n; intros; simpl; auto. Qed.
@@ -402,8 +440,8 @@ Section Frame.
         destruct (p_pad p) eqn:Epad.
         * apply slice_eq_map; [lia|]. intros x Hx. unfold cbyte. rewrite Hfind by auto.
           rewrite Epad. f_equal. lia.
-        * pose proof (Hw p Hin Epad). apply slice_eq_map; [lia|]. intros x Hx.
-          unfold cbyte. rewrite Hfind by auto. rewrite Epad. unfold raw. f_equal. lia.
+        * unfold f_slice. apply map_nseq_ext. intros x Hx.
+          unfold cbyte. rewrite Hfind by lia. rewrite Epad. unfold raw. f_equal. lia.
       + do 2 f_equal. lia.
   Qed.
 
